@@ -309,7 +309,10 @@ impl Sched {
             if let Some(pos) = enabled.iter().position(|i| *i == y) {
                 enabled.remove(pos);
                 enabled.insert(0, y);
-                preemptible = st.threads[y].status == Status::AtPoint;
+                // switching away from a thread that could continue is a preemption (CHESS): a thread parked before
+                // an acquisition whose probe holds is enabled, exactly like one at a plain point; only a spinner
+                // (it yields by design) hands over for free
+                preemptible = matches!(st.threads[y].status, Status::AtPoint | Status::Blocked);
             }
         }
         let k = st.trace.len();
